@@ -461,11 +461,33 @@ fn client_directed(k: u64, seed: u64) -> Option<CCfg> {
             ];
             c.label = "C05-expiry-of-abandoned-call-then-next-deadline";
         }
+        31 | 32 => {
+            // C10: the last handle goes away while the transport is back-pressured and a
+            // cancellation for an abandoned in-flight call is still queued
+            c.ncalls = 0;
+            c.never_pct = 100;
+            c.abandon_pct = 0;
+            c.cap = 1;
+            c.model = if k == 31 { Model::Coupled } else { Model::Independent };
+            c.isolated_strays = false;
+            c.script = vec![
+                Act::StartCall(long),
+                Act::RunIdle,
+                Act::Abandon(0, None),
+                Act::DropHandle,
+                Act::RunIdle,
+                Act::FreeSlot,
+                Act::RunIdle,
+                Act::FreeSlot,
+                Act::RunIdle,
+            ];
+            c.label = "C10-handle-dropped-under-back-pressure-with-queued-cancel";
+        }
         _ => return None,
     }
     Some(c)
 }
-const N_CLIENT_DIRECTED: u64 = 31;
+const N_CLIENT_DIRECTED: u64 = 33;
 
 /// scenario `i` of property `prop`
 pub fn client_cfg(prop: &str, i: u64, base_seed: u64, thorough: bool) -> CCfg {
